@@ -80,3 +80,22 @@ Lemma witness_reinit_no_servers :
   option_map (fun c => List.length (c_servers c))
     (match reinit nf (env_of_resolv "# nothing") chan_a with Ok c => Some c | _ => None end) = Some 1%nat.
 Proof. vm_compute. repeat split; reflexivity. Qed.
+
+(* ---- C16_csv_fixpoint / C16_dup: a server list the text form cannot express.  A link-local
+   server on the interface "br-lan" (not purely alphanumeric) given without port on a channel whose
+   default UDP port differs from the TCP port needs the dns:// form, whose host part rejects the
+   interface name: ares_get_servers_csv returns NULL and ares_dup fails *)
+Definition srv_brlan : server :=
+  mkServer (A6 [254; 128; 0; 0; 0; 0; 0; 0; 0; 0; 0; 0; 0; 0; 0; 2]%N) 5353 53 (B "br-lan") 3.
+Lemma witness_csv_unrenderable :
+  set_servers_csv nf (Some vif) 0 5353 0 [] (B "fe80::2%br-lan") = Ok [srv_brlan] /\
+  get_servers_csv nf [srv_brlan] = Err ARES_EBADNAME.
+Proof. vm_compute. split; reflexivity. Qed.
+
+(* the dns:// form itself round-trips when the interface name is alphanumeric *)
+Definition srv_eth0 : server :=
+  mkServer (A6 [254; 128; 0; 0; 0; 0; 0; 0; 0; 0; 0; 0; 0; 0; 0; 2]%N) 5353 53 (B "eth0") 2.
+Lemma witness_uri_roundtrip :
+  get_servers_csv nf [srv_eth0] = Ok (B "dns://[fe80::2%eth0]:5353?tcpport=53") /\
+  set_servers_csv nf (Some vif) 0 0 0 [] (B "dns://[fe80::2%eth0]:5353?tcpport=53") = Ok [srv_eth0].
+Proof. vm_compute. split; reflexivity. Qed.
